@@ -43,7 +43,8 @@ def run(ctx):
         c01.live_premises(ctx, M, [u for u in units if u.container != "vec"], "C07.LIVE")
         for u in units:
             flow.rule_integrity(ctx, u.bi, "C07.OK", u.where, ("Ready(Ok)",), "the winner's value")
-            flow.rule_integrity(ctx, u.bi, "C07.VEC" if u.container == "vec" else "C07.ALL", u.where, ("Ready(Err)",), "the aggregate error")
+            if u.container != "vec":
+                flow.rule_integrity(ctx, u.bi, "C07.ALL", u.where, ("Ready(Err)",), "the aggregate error")
             if u.container == "vec":
                 rule_vec(ctx, M, u)
                 joinlike.rule_zero(ctx, M, u, "C07.ZERO", ("Ready(Err)",))
@@ -276,8 +277,14 @@ def rule_vec(ctx, M, u):
     pb = common.pending_blocks(bi)
     okp = bool(pb) and all(bi.guarded_by(b, racelike_exit(bi, p)) for b in pb)
     ctx.check(okp, "C07.VEC", where, "Pending is produced only after the scan", site=u.body.span)
-    # error vector: collect(map(iter_pin_mut(replace(self.elems, ..)), |e| take_err(e)@Some))
+    # error vector: collect(map(iter_pin_mut(replace(self.elems, ..)), |e| take_err(e)@Some))  -- or the same as an
+    # explicit loop pushing take_err(e)@Some onto a fresh Vec
     okv = False
+    allow = []
+
+    def from_all_elems(src):
+        return src[0] == "call" and src[1][1] == "iter_pin_mut" and src[2] and src[2][0][0] == "call" and \
+            src[2][0][1] == ("core::mem::replace", "replace") and src[2][0][2][0] == scan.self_field("elems")
     if len(errs) == 1 and errs[0][2] is not None:
         pl = errs[0][2]
         if pl[0] == "call" and pl[1] == ("AggregateError", "new") and pl[2]:
@@ -285,8 +292,6 @@ def rule_vec(ctx, M, u):
             if c[0] == "call" and c[1][1] == "collect" and c[2] and c[2][0][0] == "call" and c[2][0][1][1] == "map":
                 mp = c[2][0]
                 src, cl = mp[2][0], mp[2][1]
-                src_ok = src[0] == "call" and src[1][1] == "iter_pin_mut" and src[2] and src[2][0][0] == "call" and \
-                    src[2][0][1] == ("core::mem::replace", "replace") and src[2][0][2][0] == scan.self_field("elems")
                 cl_ok = False
                 if cl[0] == "agg" and cl[1][0] == "closure":
                     cbody = M.by_cdef.get(cl[1][1])
@@ -296,8 +301,24 @@ def rule_vec(ctx, M, u):
                         crets = flow.returned_values(ci)
                         cl_ok = len(te) == 1 and te[0].arg(0) == ("param", 2) and any(
                             flow.is_payload(t, te[0].block, "Some") for _, _, _, t in crets)
-                okv = src_ok and cl_ok
+                okv = from_all_elems(src) and cl_ok
+            elif c[0] == "call" and c[1][0] == "Vec" and c[1][1] in ("with_capacity", "new"):
+                pushes = [s for s in bi.sites if s.key == ("Vec", "push") and s.arg(0) == c]
+                te = [s for s in bi.sites if s.key == ("MaybeDone", "take_err")]
+                if len(pushes) == 1 and len(te) == 1 and flow.is_payload(pushes[0].arg(1), te[0].block, "Some"):
+                    r = scan.loop_item_root(te[0].arg(0))
+                    nxt = bi.by_block.get(r[3]) if r is not None else None
+                    lp = bi.body.innermost_loop(pushes[0].block)
+                    if nxt is not None and lp is not None and r[2] and from_all_elems(r[2][0]):
+                        se = bi.outcome_edges(nxt, "Some")
+                        ne = bi.outcome_edges(nxt, "None")
+                        some_e = bi.outcome_edges(te[0], "Some")
+                        ok1, _ = bi.must_reach([t for _, t in se], [te[0].block], [lp[0]] + list(bi.return_blocks))
+                        ok2, _ = bi.must_reach([t for _, t in some_e], [pushes[0].block], [lp[0]] + list(bi.return_blocks))
+                        okv = bool(se) and bool(ne) and bool(some_e) and ok1 and ok2 and bi.guarded_by(errs[0][0], ne)
+                        allow = [pushes[0].block]
     ctx.check(okv, "C07.VEC", where, "aggregate error = in-order map(take_err) over all elements", site=u.body.span)
+    flow.rule_integrity(ctx, bi, "C07.VEC", where, ("Ready(Err)",), "the aggregate error", allow_blocks=allow)
 
 
 def racelike_exit(bi, poll_site):
